@@ -1,3 +1,5 @@
 import PfVerif.Audit.Tool
 import PfVerif.Props.C04
+import PfVerif.Lemmas.C05Tensor
 #audit_module PfVerif.Props.C04
+#audit_module_ns PfVerif.Lemmas.C05Tensor PfVerif.C04Tensor
